@@ -17,6 +17,8 @@ import (
 type C06Op struct {
 	Op  string `json:"op"`  // unused | unused-cli (coca refactor -m <empty config> -p dir) | noise
 	Dir int    `json:"dir"` // which project directory
+	// ArgForm: 0 absolute path, 1 relative to the working directory, 2 "./"-prefixed, 3 trailing slash
+	ArgForm int `json:"arg_form,omitempty"`
 }
 
 type C06Proc struct {
@@ -68,7 +70,11 @@ func (C06) Generate(t *tape.Tape, tier string) interface{} {
 		if t.Bool(1, 4) {
 			kind = "unused-cli"
 		}
-		first.Ops = append(first.Ops, C06Op{Op: kind, Dir: d})
+		form := 0
+		if t.Bool(1, 3) {
+			form = t.Int(1, 3)
+		}
+		first.Ops = append(first.Ops, C06Op{Op: kind, Dir: d, ArgForm: form})
 		if t.Bool(1, 3) {
 			first.Ops = append(first.Ops, C06Op{Op: "unused", Dir: d}) // immediately again, same process
 		}
@@ -161,18 +167,30 @@ func (C06) Run(ctx *sim.RunCtx, data json.RawMessage) (*sim.Outcome, error) {
 		var metas []meta
 		for _, op := range p.Ops {
 			hist = append(hist, fmt.Sprintf("%s%d", op.Op, op.Dir))
+			dirArg := dirs[op.Dir]
+			switch op.ArgForm {
+			case 1:
+				dirArg = fmt.Sprintf("proj%d", op.Dir)
+			case 2:
+				dirArg = fmt.Sprintf("./proj%d", op.Dir)
+			case 3:
+				dirArg = dirs[op.Dir] + "/"
+			}
+			if op.ArgForm != 0 {
+				out.Faults["arg-form"]++
+			}
 			switch op.Op {
 			case "noise":
 				proc.Ops = append(proc.Ops, sim.Op{Op: "identDir", Args: map[string]interface{}{"dir": dirs[op.Dir]}})
 				metas = append(metas, meta{"noise", op.Dir})
 			case "unused":
-				proc.Ops = append(proc.Ops, sim.Op{Op: "unusedImports", Args: map[string]interface{}{"dir": dirs[op.Dir]}})
+				proc.Ops = append(proc.Ops, sim.Op{Op: "unusedImports", Args: map[string]interface{}{"dir": dirArg}})
 				metas = append(metas, meta{"unused", op.Dir})
 			case "unused-cli":
 				// the CLI route: the move-class scan (with an empty move list) runs first in the same process
 				cfg := filepath.Join(ctx.Dir, "empty-move.config")
 				os.WriteFile(cfg, []byte(""), 0644)
-				proc.Ops = append(proc.Ops, sim.Op{Op: "cli", Args: map[string]interface{}{"args": []string{"refactor", "-m", cfg, "-p", dirs[op.Dir]}}})
+				proc.Ops = append(proc.Ops, sim.Op{Op: "cli", Args: map[string]interface{}{"args": []string{"refactor", "-m", cfg, "-p", dirArg}}})
 				metas = append(metas, meta{"unused", op.Dir})
 			default:
 				return nil, sim.Harness("unknown op %q", op.Op)
